@@ -19,8 +19,10 @@ fn exec(t: &[String]) -> Option<String> {
     // grouping and merged ranges depend on (chrom, start, end) only, whatever type carries them
     let (groups, merged): (Vec<Vec<GenomicRange>>, Vec<GenomicRange>) = crate::with_bedlikes!(fl, &xs, |recs| {
         use bed_utils::bed::BEDLike;
-        let groups = merge_sorted_bed_with(recs.clone(), |g| g).map(|g| g.iter().map(|x| x.to_genomic_range()).collect()).collect();
-        (groups, merge_sorted_bed(recs).collect())
+        // the iterators are consumed in the mode of the case (collect / next / next then fold / for_each / size_hint)
+        let mode = mode_of(t);
+        let groups = drain_mode(merge_sorted_bed_with(recs.clone(), |g| g).map(|g| g.iter().map(|x| x.to_genomic_range()).collect()), mode);
+        (groups, drain_mode(merge_sorted_bed(recs), mode / 5))
     });
     let mut w = W::new();
     w.n(groups.len());
@@ -47,12 +49,22 @@ fn shrink(t: &[String]) -> Vec<Vec<String>> {
 
 pub fn gen_sorted_recs(rng: &mut Rng, n: usize, max: u64, base: u64, zero_len: bool) -> Vec<Rec> {
     let nch = rng.range(1, 3) as usize;
-    let chroms: Vec<&str> = (0..nch).map(|_| *rng.pick(CHROMS)).collect();
+    let chroms: Vec<&str> = gen_chroms(rng, nch);
     let ivs = gen_intervals(rng, n, max, zero_len);
     let mut xs: Vec<Rec> = ivs.iter().map(|(s, e)| Rec::new(*rng.pick(&chroms[..]), base + s, base + e)).collect();
     // gaps of exactly one base and same coordinates on the next chromosome
     if n >= 2 && rng.chance(1, 3) { let p = xs[0].clone(); xs.push(Rec::new(&p.chrom, p.end + 1, p.end + 1 + rng.range(1, 3))); }
     if n >= 1 && nch >= 2 && rng.chance(1, 3) { let p = xs[0].clone(); let other = chroms.iter().find(|c| **c != p.chrom).copied().unwrap_or(chroms[0]); xs.push(Rec::new(other, p.start, p.end)); }
+    // a record (or a chain of two) whose length is around a power of two up to 2^63: a quantity derived from the
+    // coordinates (offset from a group's start, length, extent) that is narrowed to a smaller integer type wraps here
+    if n >= 1 && rng.chance(1, 6) {
+        let p = xs[rng.below(xs.len() as u64) as usize].clone();
+        let len = (1u64 << *rng.pick(&[8u32, 16, 31, 32, 33, 63])) + rng.below(5) - 2;
+        let e = p.start.saturating_add(len);
+        if e > p.start { xs.push(Rec::new(&p.chrom, p.start, e)); }
+        if rng.chance(1, 2) { xs.push(Rec::new(&p.chrom, e.saturating_sub(rng.below(2)), e.saturating_add(rng.range(1, 50)))); }
+        if rng.chance(1, 2) { let s2 = p.start.saturating_add(len / 2); xs.push(Rec::new(&p.chrom, s2, s2.saturating_add(rng.range(1, 9)))); }
+    }
     sort_recs(&mut xs);
     xs
 }
